@@ -290,6 +290,10 @@ class Explorer:
             return self.effects(s.value, e, trace)
         if isinstance(s, ast.Assign) and len(s.targets) == 1 and isinstance(s.targets[0], ast.Name) and s.targets[0].id in env:
             v = self.value(s.value, env)
+            if v is None and s.targets[0].id not in self.counters:
+                # a tracked local (flag / attempt count) receives something the explorer does not follow: it is unknown from here on
+                outs = self.effects(s, env, trace)
+                return [Path(p.kind, p.exc, {k: x for k, x in p.env.items() if k != s.targets[0].id}, p.trace, p.node) for p in outs]
             if v is None:
                 raise AnalysisError(f"{self.fn.qual}: retry counter assigned a non-constant `{norm(s)}`")
             e = dict(env)
@@ -301,7 +305,8 @@ class Explorer:
             outs = self.effects(s, env, trace)
             ev = self.on_stmt(s) if self.on_stmt else None
             if ev:
-                outs = [Path(p.kind, p.exc, p.env, p.trace + ((ev,) if p.kind == "normal" else ()), p.node) for p in outs]
+                evs = tuple(ev) if isinstance(ev, (list, tuple)) else (ev,)
+                outs = [Path(p.kind, p.exc, p.env, p.trace + (evs if p.kind == "normal" else ()), p.node) for p in outs]
             return outs
         if isinstance(s, (ast.For, ast.AsyncFor)):
             # drains / iteration: zero or one pass is enough for the event automaton (events inside are recorded once)
@@ -316,3 +321,31 @@ class Explorer:
                     out.append(Path("normal", None, q.env, q.trace) if q.kind in ("normal", "continue", "break") else q)
             return out
         return [Path("normal", None, env, trace)]
+
+
+def loop_budget(owner: FuncInfo, loop: ast.While) -> List[str]:
+    """Names that can play the retry budget of `loop`: preferably the one parameter of the owning function the loop's tests compare
+    (count-down: the parameter itself is decremented; count-up: a local is compared with it); else the names the condition tests."""
+    tests = [loop.test] + [n.test for n in ast.walk(loop) if isinstance(n, (ast.If, ast.IfExp, ast.While))]
+    compared = {x.id for t in tests for x in ast.walk(t) if isinstance(x, ast.Name)}
+    params = [p for p in owner.params if p in compared]
+    if len(params) == 1:
+        return params
+    updated = {n.target.id for n in ast.walk(loop) if isinstance(n, ast.AugAssign) and isinstance(n.target, ast.Name)}
+    updated |= {t.id for n in ast.walk(loop) if isinstance(n, ast.Assign) for t in n.targets
+                if isinstance(t, ast.Name) and isinstance(n.value, ast.BinOp) and any(isinstance(x, ast.Name) and x.id == t.id for x in ast.walk(n.value))}
+    tested = {n.id for n in ast.walk(loop.test) if isinstance(n, ast.Name)}
+    return sorted((updated & compared) or tested)
+
+
+def loop_env(owner: FuncInfo, loop: ast.While, budget: str, R: int) -> Dict[str, int]:
+    """Exploration state at loop entry: the budget plus every local the function initialises with a constant before the loop
+    (attempt counters, done flags) - the explorer then tracks their constant updates like the budget's."""
+    env = {budget: R}
+    names = {x.id for n in ast.walk(loop) for x in ast.walk(n) if isinstance(x, ast.Name)}
+    for st in ast.walk(owner.node):
+        if isinstance(st, ast.Assign) and len(st.targets) == 1 and isinstance(st.targets[0], ast.Name) and st.targets[0].id in names \
+                and st.targets[0].id != budget and getattr(st, "lineno", 0) < loop.lineno and isinstance(st.value, ast.Constant) \
+                and isinstance(st.value.value, (int, bool)) and not any(st is x for x in ast.walk(loop)):
+            env[st.targets[0].id] = int(st.value.value)
+    return env
